@@ -1,12 +1,17 @@
 /-
   C06 — Lines are delivered as they are in the file; headers are the first data line.
   What is proved: nothing between the reader and the caller alters a record (for every matcher),
-  and the header clauses on the header model.  Python's csv reader (dialects, quoting, decoding)
-  is a parameter of the model and is exercised by the harness, not proved.
+  and the header clauses on the header model; and, on the model of Python's csv module
+  (`Model/Csv.lean`: the reader's state machine and the writer's quoting rule, tied to the real
+  module by the correspondence check), that reading what `csv.writer` wrote gives back the records
+  cell for cell, for every dialect and every cell text without a carriage return.  UTF-8 decoding
+  is below the model.
 -/
 import Model.RunLoop
 import Model.Headers
+import Model.Csv
 import Proofs.RunLoop
+import Proofs.Csv
 
 namespace Props.C06
 open Model.Scan Model.Run Proofs.Run Model.Headers
@@ -97,5 +102,39 @@ theorem c06_short_row (strip : String → String) (headers : List String) (line 
   simp [headerValue, h, this]
 
 example : headersOf id [[], [" a;", "b|c"], ["1", "2"]] = [" a", "bc"] := by decide
+
+/-! the csv layer -/
+open Model.Csv in
+/-- **writer then reader is the identity**: for every delimiter and quote character (distinct, not
+    line ends), every list of records — blank records, ragged rows, empty cells, cells holding
+    delimiters, quote characters, line feeds and any other text — with no carriage return in a cell
+    and no cell longer than the field size limit, `csv.reader` over the text `csv.writer` produced
+    yields exactly those records: same count, same cells, same order. -/
+theorem c06_csv_roundtrip (d : Dialect) (hd : Proofs.Csv.WFD d) (recs : List Model.Csv.Rec)
+    (h : ∀ r ∈ recs, ∀ c ∈ r, '\r' ∉ c ∧ c.length ≤ d.limit) :
+    Model.Csv.read d (render d recs) = some recs :=
+  Proofs.Csv.read_render d hd recs h
+
+open Model.Csv in
+/-- the two clauses together: what the run returns are cells of the records that were written -/
+theorem c06_delivered (d : Dialect) (hd : Proofs.Csv.WFD d) (recs : List Model.Csv.Rec)
+    (h : ∀ r ∈ recs, ∀ c ∈ r, '\r' ∉ c ∧ c.length ≤ d.limit)
+    (m : MatcherSem σ) (scan : St) (cfg : Cfg) (budget : Option Nat) (st : LoopSt σ) :
+    ∃ file : List Model.Run.Rec, (Model.Csv.read d (render d recs)).map (·.map (·.map String.ofList)) = some file ∧
+      file = recs.map (·.map String.ofList) ∧
+      ∃ ys : List Nat, (runWith m scan cfg budget file st).1 = ys.map (fun j => file.getD j []) ∧ ∀ j ∈ ys, j < file.length := by
+  refine ⟨recs.map (·.map String.ofList), ?_, rfl, ?_⟩
+  · rw [c06_csv_roundtrip d hd recs h]; rfl
+  · exact (c06_identity m scan cfg budget _ st).1
+
+/-- the premises are satisfiable and the statement is not about tidy cells only -/
+example : Model.Csv.read ⟨',', '"', 131072⟩ (Model.Csv.render ⟨',', '"', 131072⟩
+      [["a,b".toList, "say \"hi\"".toList, "two\nlines".toList], [], [[]], [[], "x".toList]])
+    = some [["a,b".toList, "say \"hi\"".toList, "two\nlines".toList], [], [[]], [[], "x".toList]] := by decide
+
+/-- the hypothesis the proof forced: a carriage return in a cell is written unquoted and splits the
+    record when it is read back (the property's quantifier excludes CR) -/
+example : Model.Csv.read ⟨',', '"', 131072⟩ (Model.Csv.render ⟨',', '"', 131072⟩ [["a\rb".toList]])
+    = some [["a".toList], ["b".toList]] := by decide
 
 end Props.C06
